@@ -315,7 +315,7 @@ def c04(tier):
                         n += 1
                         rl.planned_runs(binary, sc, [[("check", "")]], batch, v,
                                         sigbase={"use_cache": use_cache, "lock": str(lock)})
-    for cc in ("missing", "invalid", "nosourcedir", "sourcedirfile", "noinscope"):
+    for cc in ("missing", "invalid", "nosourcedir", "sourcedirfile", "noinscope", "emptyext"):
         sc = rl.Scenario("cfgerr-" + cc, {"f1.rs": [S(11)]}, lock=3, config_class=cc, extra_files=EXTRA)
         rl.planned_runs(binary, sc, [[("check", "")]], batch, v, sigbase={"config_class": cc})
     # TMPDIR names a directory that does not exist: nothing may be created there either
@@ -576,11 +576,13 @@ def c07(tier):
         scens.append(rl.Scenario("crlf-unicode", {"f1.rs": [S(11), S(12)], "f2.rs": [S(21)]}, crlf=True, unicode_prelude=True, pad=20000))
     for sc in scens:
         sc.kw["extra_files"] = EXTRA
-        K, n = rl.sweep(binary, sc, "edit", kinds, batch, v)
+        small = sum(len(x) for x in sc.tree.values()) <= 12 and not sc.kw.get("pad")
+        K, n = rl.sweep(binary, sc, "edit", kinds, batch, v, follow=("recover" if small else None))
         log("[sweep] %s: %d operations, %d runs" % (sc.name, K, n))
     batch.judge(v, {"C07"})
     v.cov["rule"] = ("every counted filesystem operation k of a fault-free edit run x fault kind "
-                     "(kill before/after, EIO, ENOSPC, EACCES, EXDEV on rename); distinct = (scenario, k, kind)")
+                     "(kill before/after, EIO, ENOSPC, EACCES, EXDEV on rename); on the small trees each is followed by "
+                     "'the developer removes code, ordinary edit run, check' (recovery); distinct = (scenario, k, kind)")
     v.cov["exhaustive"] = True
     v.assumptions += ["process death loses user-space buffers only (completed write(2) calls persist)",
                       "operations are counted at libc entry points seen by LD_PRELOAD"]
@@ -655,7 +657,7 @@ def c16(tier):
                             # two-run behaviour: edit; developer deletes the highest statement and adds one; edit; check
                             rl.planned_runs(binary, sc, [[("check", "")], [("edit", "")]], batch, v, sigbase=sig)
                             rl.planned_runs(binary, sc, [[("edit", "")]], batch, v, sigbase=sig, follow="c02")
-    for cc in ("missing", "invalid", "nosourcedir", "sourcedirfile", "noinscope", "nomacros"):
+    for cc in ("missing", "invalid", "nosourcedir", "sourcedirfile", "noinscope", "emptyext", "nomacros"):
         for mode in ("check", "edit"):
             for lock in (None, 9):
                 sc = rl.Scenario("cfgerr-%s" % cc, {"f1.rs": [S(11)], "f2.rs": [S(21, ref=3)]}, lock=lock, config_class=cc,
